@@ -215,7 +215,7 @@ Theorem dual_proof_v2_sound_wrt_history hs p src tgt salh sh th tg :
   verify_dual_proof_v2 H (Some p) src tgt salh (alh_v H tg) = Ok true ->
   (exists g, tx_at hs src = Some g /\ hashed_fields sh = hashed_fields g /\ salh = alh_v H g) \/ Collision.
 Proof.
-  intros W Tt Ps Pt Vs Vt F Ne V. unfold verify_dual_proof_v2 in V.
+  intros W Tt Ps Pt Vs Vt F Ne V. unfold verify_dual_proof_v2, verify_dual_proof_v2_gen in V.
   rewrite Ps, Pt in V.
   destruct (N.eqb_spec (h_id sh) 0) as [|S0]; [discriminate|].
   destruct (N.eqb_spec (h_id sh) src) as [Is|]; [|discriminate].
